@@ -395,6 +395,7 @@ def train_ddpg(
     obs, _ = env.reset(seed=seed)
     steps_per_episode = 0
     training_eps = 0
+    steps_trained = global_step
     accumulated_reward = 0.0
 
     if policy_target is None:
@@ -414,6 +415,7 @@ def train_ddpg(
             )
 
         next_obs, reward, termination, truncated, info = env.step(action)
+        steps_trained = global_step + 1
         steps_per_episode += 1
         accumulated_reward += reward
 
@@ -502,5 +504,5 @@ def train_ddpg(
         q_target,
         q_optimizer,
         replay_buffer,
-        global_step + 1,
+        steps_trained,
     )
